@@ -150,5 +150,6 @@ theorem wide_stmt_word (L : Layout) (σ : SrcSt) (st : RStmt) (s : String) (w : 
   | dec _ => simp [wResult] at h
   | chain _ _ _ _ _ => simp [wResult] at h
   | lin _ _ => simp [wResult] at h
+  | expr _ _ => simp [wResult] at h
 
 end CV.GenReg
